@@ -490,7 +490,10 @@ func init() {
 	register(&Property{ID: "C15", Gen: genC15, Replay: replayEv,
 		Rule: "table maps of 1..600 columns (incl. counts >= 251) over all supported types/metadata, names up to 255 bytes, every nullability bitmap, 4/6-byte ids, random optional metadata, with/without checksum; raw length-encoded integers and metadata reads; (stream level) re-announcements and the mapper column-count check via the C04/C01 histories. Non-trivial: more than one column",
 		Extra: func(c *Collector, r *RNG, tier string) { extraC15(c, r, tier) }})
-	register(&Property{ID: "C09", Gen: genC09, Replay: func(line string) []Case {
+	register(&Property{ID: "C09", Gen: genC09, Extra: extraC09, Replay: func(line string) []Case {
+		if strings.HasPrefix(line, "hist ") {
+			return replayHist(line)
+		}
 		if strings.HasPrefix(line, "clenbytes ") {
 			f := fields(line)
 			var t, md, pos int
